@@ -14,7 +14,7 @@
 EXTENDS Integers, Sequences, FiniteSets, TLC
 
 CONSTANTS Keys,      \* a set of positive integers (indices into the harness' key table)
-          Vals,      \* positive integers; 0 is the zero value returned for absent keys
+          Vals,      \* values put; 0 is the zero value (also what Get / Remove return for absent keys)
           Levels,    \* heights explored: 1..Levels
           Order      \* "asc" | "desc": the comparison trait handed to New (a total order on Keys)
 
